@@ -535,9 +535,24 @@ func (ex *Exec) mergeStates(a, b *State) *State {
 	if b.guard == "false" {
 		return a
 	}
-	g := a.guard
-	n := a.clone()
+	n := ex.mergeWith(a.guard, a, b)
 	n.guard = ex.vc.Bind("g", SBool, or(a.guard, b.guard))
+	// the per-path lock snapshots are merged under the same condition
+	switch {
+	case a.lockSnap == nil:
+		n.lockSnap = b.lockSnap
+	case b.lockSnap == nil || a.lockSnap == b.lockSnap:
+		n.lockSnap = a.lockSnap
+	default:
+		n.lockSnap = ex.mergeWith(a.guard, a.lockSnap, b.lockSnap)
+		n.lockSnap.lockSnap = nil
+	}
+	return n
+}
+
+// mergeWith builds "if g then a else b" component-wise.
+func (ex *Exec) mergeWith(g string, a, b *State) *State {
+	n := a.clone()
 	for c, bv := range b.cells {
 		if av, ok := a.cells[c]; ok {
 			n.cells[c] = ex.mergeVals(g, av, bv, c.Comment)
